@@ -600,17 +600,28 @@ func (cs *ClientSession) Wait() error {
 // been seen. It is used by CallTool to inject the tool definition into the
 // outgoing request context for transport-layer features (e.g. x-mcp-header
 // param annotations).
+//
+// Cached pages are keyed by request cursor, and a page stays cached until the
+// same cursor is requested again. When the server's tools change, the cursors
+// it issues change too, so a superseded page can linger next to the pages of a
+// newer listing: the page received last wins.
 func (cs *ClientSession) lookupTool(name string) *Tool {
 	cs.toolsCache.mu.Lock()
 	defer cs.toolsCache.mu.Unlock()
+	var found *Tool
+	var foundSeq uint64
 	for _, entry := range cs.toolsCache.cachedValues {
+		if found != nil && entry.seq < foundSeq {
+			continue
+		}
 		for _, t := range entry.result.Tools {
 			if t.Name == name {
-				return t
+				found, foundSeq = t, entry.seq
+				break
 			}
 		}
 	}
-	return nil
+	return found
 }
 
 // registerElicitationWaiter registers a waiter for an elicitation complete
